@@ -20,8 +20,8 @@ Proof. exact C16_async_bound. Qed.
 Print Assumptions C16_no_step_ahead_of_agent.
 
 (* set_data towards a simulator without an async_requests connection is refused, and changes nothing *)
-Theorem C16_refused_without_connection : forall st dt s ds i j a v,
+Theorem C16_refused_without_connection : forall st dt s ds i w j a v,
   existsb (fun jd : nat * interval => Nat.eqb (fst jd) i) (succ_wait st j) = false ->
-  dapply st dt (s, ds) (DSetData i j a v) = DAsyncRefused i j.
+  dapply st dt (s, ds) (DSetData i w j a v) = DAsyncRefused i j.
 Proof. intros. simpl. rewrite H. reflexivity. Qed.
 Print Assumptions C16_refused_without_connection.
